@@ -7,14 +7,17 @@ cplxfir   FIR filters with complex coefficients (including unit-modulus ones
           such as 1j, 0.6+0.8j): impulse response through the real filter
           code, its unnormalised DFT, and a complex exponential in steady
           state must all agree with freq_response / the defining sum
+bankmut   a CascadeFilter / ParallelFilter (a list) is used once, then changed
+          IN PLACE (item assignment, append, insert, del, +=): its response
+          must be the product / sum over its CURRENT parts
 """
 import cmath
 import itertools
 import math
 
-from audiolazy import ZFilter, dft
+from audiolazy import ZFilter, dft, CascadeFilter, ParallelFilter
 
-KINDS = ("mutate", "cplxfir")
+KINDS = ("mutate", "cplxfir", "bankmut")
 CPLX = [1j, -1j, 1, -1, 1 + 1j, 2 - 1j, 0.6 + 0.8j, -0.8 + 0.6j, 0.5j, 3, -2j,
         (3 + 4j) / 5, 2.5, -0.5 - 0.5j, 0.28 + 0.96j]
 
@@ -38,6 +41,117 @@ def cases(ctx):
     b = [rng.choice(CPLX) for _ in range(rng.randint(1, 6))]
     yield ("cplxfir", b, rng.choice([0.0, math.pi, rng.uniform(0, 6.28)]),
            rng.choice([1, 1, 2, -1, 1j]))
+  for c in bank_cases(ctx):
+    yield c
+
+
+def rpart(rng):
+  b = [rng.randint(-4, 4) or 1 for _ in range(rng.randint(1, 4))]
+  a = [rng.choice([1, 2, -1, 4])] + [rng.choice([-1, 1, 0.5, -0.5, 0.25])
+                                     for _ in range(rng.randint(0, 2))]
+  return (b, a)
+
+
+def bank_cases(ctx):
+  rng = ctx.rng
+  for _ in ctx.loop(1200, 50000):
+    yield ("bankmut", rng.choice(["C", "P"]),
+           [rpart(rng) for _ in range(rng.randint(1, 3))],
+           rng.choice(["setitem", "append", "insert", "delitem", "iadd",
+                       "setitem", "pop", "extend"]),
+           rng.randint(0, 5), [rpart(rng) for _ in range(2)],
+           [rng.choice([0.0, math.pi, rng.uniform(0.05, 6.2)])
+            for _ in range(3)],
+           rng.choice(["freq_response", "call", "polys", "is_lti"]))
+
+
+def bank_ref(tag, parts, w):
+  """-> (value, scale) or None when a denominator is too close to zero."""
+  vals = []
+  for b, a in parts:
+    num, den = H(b, a, w)
+    if abs(den) < 1e-2 * sum(abs(c) for c in a):
+      return None
+    vals.append((num / den, sum(map(abs, b)) / abs(den)))
+  if tag == "C":
+    v, sc = 1, 1
+    for x, s_ in vals:
+      v, sc = v * x, sc * max(s_, 1)
+    return v, sc
+  return sum(x for x, _ in vals), sum(s_ for _, s_ in vals)
+
+
+def run_bank(ctx, case):
+  _, tag, parts, how, idx, new, ws, first_use = case
+  cls = CascadeFilter if tag == "C" else ParallelFilter
+  bank = cls(*[ZFilter(list(b), list(a)) for b, a in parts])
+  pre = "cascade" if tag == "C" else "parallel"
+  for w in ws[:1]:                      # first use, before the change
+    ref = bank_ref(tag, parts, w)
+    if first_use == "freq_response":
+      got = bank.freq_response(w)
+      if ref is not None and not close(ctx, "bank:first", got, ref[0], ref[1]):
+        ctx.violation("bankmut/%s-first-response" % pre, case, got=repr(got),
+                      want=repr(ref[0]))
+        return True
+    elif first_use == "call":
+      list(itertools.islice(iter(bank([1, 0, 0, 0], zero=0)), 4))
+    elif first_use == "polys":
+      bank.numpoly, bank.denpoly
+    else:
+      bank.is_lti()
+  cur = list(parts)
+  mk = lambda p: ZFilter(list(p[0]), list(p[1]))
+  if how == "setitem":
+    k = idx % len(cur)
+    bank[k] = mk(new[0])
+    cur[k] = new[0]
+  elif how == "append":
+    bank.append(mk(new[0]))
+    cur.append(new[0])
+  elif how == "insert":
+    k = idx % (len(cur) + 1)
+    bank.insert(k, mk(new[0]))
+    cur.insert(k, new[0])
+  elif how == "delitem":
+    if len(cur) < 2:
+      return False
+    k = idx % len(cur)
+    del bank[k]
+    del cur[k]
+  elif how == "iadd":
+    bank += [mk(new[0])]
+    cur.append(new[0])
+  elif how == "pop":
+    if len(cur) < 2:
+      return False
+    bank.pop()
+    cur.pop()
+  else:
+    bank.extend([mk(new[0]), mk(new[1])])
+    cur.extend(new)
+  if type(bank) is not cls:
+    ctx.violation("bankmut/container-type-changed", case,
+                  got=type(bank).__name__)
+    return True
+  done = False
+  for w in ws:
+    ref = bank_ref(tag, cur, w)
+    if ref is None:
+      continue
+    got = bank.freq_response(w)
+    ctx.count("bank-response-after-in-place-change")
+    ctx.count("bankmut:" + how)
+    done = True
+    if not close(ctx, "bank:after", got, ref[0], ref[1]):
+      stale = bank_ref(tag, parts, w)
+      ctx.violation("bankmut/%s-response-is-not-of-the-current-parts" % pre,
+                    case, w=w, got=repr(got), want=repr(ref[0]),
+                    looks_like_the_old_parts=bool(
+                      stale and close(ctx, "bank:stale", got, stale[0],
+                                      stale[1])))
+      return True
+  return done
 
 
 def close(ctx, name, got, want, scale):
@@ -51,6 +165,8 @@ def close(ctx, name, got, want, scale):
 
 
 def run_case(ctx, case):
+  if case[0] == "bankmut":
+    return run_bank(ctx, case)
   if case[0] == "mutate":
     _, b, a, w, which, idx, newc = case
     filt = ZFilter(list(b), list(a))
@@ -129,3 +245,7 @@ def finish(ctx):
   ctx.need("response-after-coefficient-overwrite", 300)
   ctx.need("complex-fir-checked", 300)
   ctx.need("complex-unit-modulus-tap", 100)
+  ctx.need("bank-response-after-in-place-change", 500)
+  for how in ["setitem", "append", "insert", "delitem", "iadd", "pop",
+              "extend"]:
+    ctx.need("bankmut:" + how, 30)
